@@ -3,6 +3,7 @@ import XrsVerif.Proofs.Jenks
 import XrsVerif.Proofs.KSimp
 import XrsVerif.Gen.ClassifyFacts
 import XrsVerif.Gen.Kernels
+import XrsVerif.Model.PyNum
 /-
   C12 -- Classifiers label every finite cell, in order, within [0, k-1].
 
@@ -170,6 +171,47 @@ theorem reclassify_nan_only_above_last (bins : List (Ext K)) (hne : bins ≠ [])
     firstGEx bins x = none ↔ Ext.lt (bins.getLast hne) (.fin x) = true :=
   firstGEx_none_iff bins x hne hasc
 
+/-! #### the wrapper `_run_numpy_bin`: the comparison is between the numbers themselves only as long as no
+    operand is rounded on the way to `_cpu_bin` -/
+
+/-- **no operand is rounded ⇒ first bin**: whatever casts `_run_numpy_bin` contains (`c`), if they leave the
+    bins, the cell and the new values of *this call* unchanged (`np.asarray(x)`; a cast to a dtype that holds the
+    operand exactly), a finite cell gets the new value of the first bin whose upper bound is `>=` the cell -/
+theorem run_numpy_bin_first_bin (c : BinCasts) (rnd : String → Ext K → Ext K) (ddt : String)
+    (bins newv : List (Ext K)) (x : K) (hne : bins ≠ []) (hasc : ExtAscending bins)
+    (hb : ∀ b ∈ bins, c.bins.apply rnd ddt b = b) (hn : ∀ w ∈ newv, c.newValues.apply rnd ddt w = w)
+    (hv : c.data.apply rnd ddt (.fin x) = .fin x) :
+    runNumpyBin Gen.cpuBinShape c rnd ddt bins newv (.fin x) =
+      match firstGEx bins x with | some i => getW .nan newv (i : Int) | none => .nan := by
+  unfold runNumpyBin
+  rw [hv, List.map_congr_left hb, List.map_congr_left hn, List.map_id', List.map_id']
+  exact reclassify_spec bins newv hne hasc x
+
+/-- what was read from the source: `_run_numpy_bin` re-binds `bins` and `new_values` with `np.asarray(x)` (no
+    dtype: nothing is rounded), leaves `data` alone and returns `_cpu_bin(data, bins, new_values)`; `reclassify`,
+    `_bin` and the dask wrapper pass the three operands on untouched.  (A `dtype=` argument, an `astype`, or any
+    statement the extractor does not understand makes this `decide` fail.) -/
+theorem bin_operands_not_cast :
+    Gen.runBinCasts = { data := .none, bins := .none, newValues := .none, callOk := true } ∧
+    Gen.binChainPassThrough = true := by decide
+
+/-- **reclassify through the wrapper as it is in the source**: for every conversion function, every raster
+    dtype, every ascending NaN-free bin list: first bin `>=` the value, NaN above the last bin / for NaN, ±inf -/
+theorem reclassify_first_bin (rnd : String → Ext K → Ext K) (ddt : String) (bins newv : List (Ext K)) :
+    (∀ v, v.isFinite = false → runNumpyBin Gen.cpuBinShape Gen.runBinCasts rnd ddt bins newv v = .nan) ∧
+    (bins ≠ [] → ExtAscending bins → ∀ x : K,
+      runNumpyBin Gen.cpuBinShape Gen.runBinCasts rnd ddt bins newv (.fin x) =
+        match firstGEx bins x with | some i => getW .nan newv (i : Int) | none => .nan) := by
+  have hc := (bin_operands_not_cast).1
+  refine ⟨?_, ?_⟩
+  · intro v hv
+    unfold runNumpyBin
+    rw [hc]
+    simp only [Cast.apply]
+    exact reclassify_nonfinite _ _ v hv
+  · intro hne hasc x
+    apply run_numpy_bin_first_bin _ rnd ddt bins newv x hne hasc <;> intros <;> rw [hc] <;> rfl
+
 example : ExtAscending [Ext.fin (10 : Int), .fin 15, .pinf] := by
   refine ⟨by decide, by decide⟩
 example : cellS Gen.cpuBinShape [Ext.fin (10 : Int), .fin 15, .pinf] [.fin 1, .fin 2, .fin 3] (.fin 16) = .fin 3 := by
@@ -177,6 +219,17 @@ example : cellS Gen.cpuBinShape [Ext.fin (10 : Int), .fin 15, .pinf] [.fin 1, .f
 example : cellS Gen.cpuBinShape [Ext.fin (10 : Int), .fin 15] [.fin 1, .fin 2] (.fin 16) = .nan := by decide
 
 end reclass
+
+/-- **why a narrowing cast breaks the property** (the hypotheses `hb` of `run_numpy_bin_first_bin` are needed):
+    a wrapper that converts the bins to the raster's dtype, on a float32 raster.  The bound 0.1 is not a float32;
+    its conversion is 13421773 / 2^27 > 0.1.  The cell holding exactly that float32 is above the bound 0.1, so its
+    first bin is the second one -- the converted bins put it into the first. -/
+theorem narrowing_cast_breaks_first_bin :
+    runNumpyBin Gen.cpuBinShape { data := .none, bins := .dataDtype, newValues := .none, callOk := true }
+        (fun t v => match v with | .fin q => if t = "float32" then .fin (roundF32 q) else v | _ => v) "float32"
+        [.fin (1 / 10), .fin (1 / 5)] [.fin 10, .fin 20] (.fin (13421773 / 134217728 : Rat)) = .fin 10 ∧
+    firstGEx [Ext.fin (1 / 10 : Rat), .fin (1 / 5)] (13421773 / 134217728) = some 1 ∧
+    roundF32 (1 / 10) = 13421773 / 134217728 := by decide +kernel
 
 /-! ### binary (generated kernel): 1 exactly on the listed values, NaN for NaN, else 0
     (`NV` has no ±inf; `np.isfinite` is modelled by `Fl.isfinite`, the correspondence run covers ±inf) -/
